@@ -142,6 +142,8 @@ class Schedule(object):
             k = (1, 0, nk)
         elif self.kind == 'perm':
             k = (0, self.pos[name], ()) if name in self.pos else (1, 0, nk)
+        elif self.kind == 'last':      # the listed names sort after everything else
+            k = (2, self.pos[name], ()) if name in self.pos else (1, 0, nk)
         elif self.kind == 'reversed':
             k = (0, _Rev(nk), ())
         elif self.kind == 'formrev':   # forms reversed, lines natural
